@@ -480,6 +480,20 @@ func (fx *Fx) applyContract(st *State, ct *Contract, fn *ssa.Function, args []Va
 		}
 		fx.bindResults(vars, res, resT, fn, ct)
 	}
+	for _, f := range ct.FreshOrNil {
+		// (fresh-or-nil <expr>): nil, or a new object that becomes a local of the caller
+		v := fx.P.elab(fx, f, env)
+		lo := fx.newLocal(st, false, "fresh:"+shortCallee(name))
+		L := LocalObj(lo.ID)
+		nb := Sym(freshName("nonnil!"+shortCallee(name)), BoolS)
+		ot := v.L[objLeaf(v)]
+		for i := range res.L {
+			if res.L[i] == ot {
+				res.L[i] = Ite(nb, L, IntConst(0))
+			}
+		}
+		fx.bindResults(vars, res, resT, fn, ct)
+	}
 	for _, rd := range ct.Returns {
 		// exact result leaf: substitute the definition for the fresh symbol
 		pe := &Env{fx: fx, st: st, old: old, vars: vars}
